@@ -10,10 +10,11 @@ from uuid import UUID
 
 from pydiverse.transform._internal import errors
 from pydiverse.transform._internal.backend.table_impl import TableImpl
+from pydiverse.transform._internal.ops import ops
 from pydiverse.transform._internal.ops.op import Ftype
 from pydiverse.transform._internal.tree import types, verbs
 from pydiverse.transform._internal.tree.ast import AstNode
-from pydiverse.transform._internal.tree.col_expr import Col, ColFn
+from pydiverse.transform._internal.tree.col_expr import CaseExpr, Cast, Col, ColExpr, ColFn, LiteralCol
 
 
 @dataclasses.dataclass(slots=True)
@@ -34,6 +35,11 @@ class Cache:
     # also only for subquery detection: whether a `summarize` (possibly without
     # grouping) is part of the current query
     is_summarized: bool = False
+
+    # also only for subquery detection: columns computed in the current query that may
+    # be non-null although all columns they read are null (constants, `fill_null`,
+    # `is_null`, ...). On the null-padded side of an outer join they need a subquery.
+    not_null_preserving: frozenset[UUID] = frozenset()
 
     def __repr__(self) -> str:
         return (
@@ -112,6 +118,9 @@ class Cache:
                     for uid, col in self.cols.items()
                 }
                 res.partition_by = [node.uuid_map[uid] for uid in self.partition_by]
+                res.not_null_preserving = frozenset(
+                    node.uuid_map[uid] for uid in self.not_null_preserving if uid in node.uuid_map
+                )
                 res.derived_from = set()
 
         elif isinstance(node, verbs.Select):
@@ -130,6 +139,11 @@ class Cache:
             res.cols = self.cols | {
                 uid: Col(name, node, uid, val.dtype(), val.ftype(agg_is_window=True))
                 for name, val, uid in zip(node.names, node.values, node.uuids, strict=True)
+            }
+            res.not_null_preserving = self.not_null_preserving | {
+                uid
+                for val, uid in zip(node.values, node.uuids, strict=True)
+                if not preserves_null(val, self.not_null_preserving)
             }
             # an overwritten column is moved to the end (this is what all backends do)
             overwritten = set(node.names)
@@ -177,6 +191,7 @@ class Cache:
             res.name_to_uuid = self.name_to_uuid | right_cache.name_to_uuid
             res.uuid_to_name = {uid: name for name, uid in res.name_to_uuid.items()}
 
+            res.not_null_preserving = self.not_null_preserving | right_cache.not_null_preserving
             res.derived_from = self.derived_from | right_cache.derived_from
             res.limit = None
             res.group_by = set()
@@ -227,8 +242,10 @@ class Cache:
             res.group_by = set()
             res.is_filtered = False
             res.is_summarized = False
+            res.not_null_preserving = frozenset()
 
         assert len(res.name_to_uuid) == len(res.uuid_to_name)
+        res.not_null_preserving = res.not_null_preserving & res.cols.keys()
         res.derived_from = res.derived_from | {node}
 
         return res
@@ -301,10 +318,10 @@ class Cache:
                 return "join with a grouped table"
 
             # (also hidden columns can be referenced after the join)
-            if (node.how == "full" or (node.child not in self.derived_from and node.how == "left")) and any(
-                types.is_const(col.dtype()) for col in self.cols.values()
+            if (node.how == "full" or (node.child not in self.derived_from and node.how == "left")) and (
+                any(types.is_const(col.dtype()) for col in self.cols.values()) or self.not_null_preserving
             ):
-                return "left / full join with a table containing a constant column"
+                return "left / full join with a table containing a constant column or a column that can be non-null for null input"
 
             if any(col.ftype() == Ftype.WINDOW for col in self.cols.values()):
                 return "join with a table containing window function expression"
@@ -330,6 +347,49 @@ class Cache:
 
     def selected_cols(self) -> list[Col]:
         return [self.cols[uid] for uid in self.uuid_to_name.keys()]
+
+
+_NOT_NULL_PROPAGATING = (
+    ops.coalesce,
+    ops.fill_null,
+    ops.horizontal_min,
+    ops.horizontal_max,
+    ops.horizontal_sum,
+    ops.horizontal_any,
+    ops.horizontal_all,
+    ops.bool_and,
+    ops.bool_or,
+)
+
+
+def preserves_null(expr: ColExpr, not_null_preserving: frozenset[UUID]) -> bool:
+    """
+    Whether `expr` is null whenever all columns it reads are null. (Conservative:
+    `False` if unsure.)
+    """
+
+    def rec(e: ColExpr) -> bool:
+        if isinstance(e, Col):
+            return e._uuid not in not_null_preserving
+        if isinstance(e, LiteralCol):
+            return e.val is None
+        if isinstance(e, Cast):
+            return rec(e.val)
+        if isinstance(e, CaseExpr):
+            # no condition is true for null input: the default value is taken
+            return all(rec(cond) for cond, _ in e.cases) and (e.default_val is None or rec(e.default_val))
+        if isinstance(e, ColFn):
+            if e.op.ftype != Ftype.ELEMENT_WISE:
+                # window / aggregation functions require a subquery anyway
+                return True
+            if e.op in (ops.is_null, ops.is_not_null):
+                return False
+            if e.op in _NOT_NULL_PROPAGATING:
+                return all(rec(arg) for arg in e.args)
+            return any(rec(arg) for arg in e.args)
+        return False
+
+    return rec(expr)
 
 
 def transfer_col_references(table, ref_source):
